@@ -279,7 +279,7 @@ def translate(cfg, outdir):
             defs[tag] = ("struct %s { char __opaque; };\n" % tag, [])
     h += topo(defs)
     h += enum_defs
-    for an, (ect, cnt) in sorted(tm.arr_insts.items()):
+    for an, (ect, cnt) in sorted(tm.carr_insts.items()):
         h.append("typedef %s %s[%s];" % (ect, an, cnt))
     for i, k in enumerate(sorted(em.exc_kinds)):
         h.append("#define %s (%d)" % (k, 2 + i))
